@@ -26,6 +26,134 @@ JSON_MUTATORS_FORBIDDEN = re.compile(r"serde_json::(map::Map|value::Value).*::(r
 OVERRIDES = ["project_path", "output_path", "validation_library", "verbose", "visualize_deps", "force"]
 
 
+def check_validation_dispatch_agreement(S, rule):
+    """every `match` that decides on the validation library compares the same text (no case folding in one place only) with the same literals:
+    what validate() accepts is exactly what the generator dispatch understands"""
+    sites = []
+    for f in S.fns:
+        if f.body is None:
+            continue
+        for e in walk_block(f.body):
+            if e.get("k") != "match":
+                continue
+            lits = set()
+            for arm in e["arms"]:
+                for p_ in (arm["pat"]["cases"] if arm["pat"].get("k") == "or" else [arm["pat"]]):
+                    if p_.get("k") == "lit" and isinstance(p_["lit"].get("v"), str):
+                        lits.add(p_["lit"]["v"])
+            if {"zod", "none"} <= lits:
+                scr = expr_text(e["expr"])
+                m = re.search(r"validation_library(.*)$", scr)
+                sites.append((f.qname, m.group(1) if m else scr, frozenset(lits)))
+    if len(sites) < 2:
+        rule.bad(V(rule.id, "<anchor>", "validation-dispatch-sites:%d" % len(sites), "expected validate() and at least one generator dispatch to match on the validation library"))
+        return
+    norms = {s_[1] for s_ in sites}
+    litsets = {s_[2] for s_ in sites}
+    if len(norms) == 1 and len(litsets) == 1:
+        rule.ok("%d sites match validation_library%s against %s" % (len(sites), next(iter(norms)), sorted(next(iter(litsets)))))
+    else:
+        rule.bad(V(rule.id, "GenerateConfig::validate", "validation-dispatch-disagree:%s" % "|".join(sorted("%s:%s" % (a, b) for a, b, _ in sites)),
+                   "the places that decide on the validation library do not compare the same text/literals (%s): a value validate() accepts is rejected later, after the configuration was written"
+                   % "; ".join("%s matches validation_library%s on %s" % (a, b, sorted(c)) for a, b, c in sites)))
+
+
+def check_typegen_inserted_on_all_paths(P, rule):
+    """save_to_tauri_config: every path from reading the document to writing it back passes through plugins.insert("typegen", <new entry>)"""
+    fs_ = P.find("GenerateConfig::save_to_tauri_config")
+    if not fs_:
+        rule.bad(V(rule.id, "<anchor>", "missing:save_to_tauri_config", "anchor not found"))
+        return
+    f = fs_[0]
+    ins = [c for c in f.calls if c.name == "insert" and "Map" in (c.self_ty or c.path) and len(c.args) > 1 and c.bb in f.reach_blocks
+           and '"typegen"' in f.describe_origin(f.origin(c.args[1]), deep=3)]
+    wr = [c for c in f.calls if strip_generics(c.path) == "std::fs::write" and c.bb in f.reach_blocks]
+    if not ins or not wr:
+        rule.bad(V(rule.id, f.id, "typegen-insert-or-write-missing:%d:%d" % (len(ins), len(wr)), "save_to_tauri_config: found %d insert(\"typegen\") and %d fs::write" % (len(ins), len(wr))))
+        return
+    blocked = {c.bb for c in ins}
+    seen = {0}
+    work = [0]
+    while work:
+        b = work.pop()
+        if b in blocked:
+            continue
+        for (lab, t) in f.succ_edges(b):
+            # shape tests on the existing document (`plugins` missing / not an object) may bypass the insertion: that is the "cannot be stored here" case
+            try:
+                o, outcome = f.cond_struct(b, lab)
+            except Exception:
+                o, outcome = ("?",), "?"
+            if o[0] == "call" and o[1].name in ("get_mut", "as_object_mut", "as_object", "get") and outcome == "None":
+                continue
+            if t not in seen:
+                seen.add(t)
+                work.append(t)
+    if any(w.bb in seen and w.bb not in blocked for w in wr):
+        rule.bad(V(rule.id, f.id, "typegen-not-inserted-on-all-paths", "the document can be written back without plugins.insert(\"typegen\", ..) having run (an existing entry is only patched): keys the old entry lacks are lost", wr[0].file, wr[0].line))
+    else:
+        rule.ok("every path to fs::write passes through plugins.insert(\"typegen\", <entry>)")
+
+
+def check_no_early_reads(P, rule, fields=None):
+    """flag > file > default is established by assignments `config.<field> = <flag value>` in run_generate; a read of such a field that an
+    override assignment can still follow sees the file/default value although a flag was given (stale value).  Shared by C19-D3 and C16-D2."""
+    from rulelib import blocks_reachable_from
+    rg = P.fns.get("cargo_tauri_typegen::run_generate")
+    if rg is None:
+        rule.bad(V(rule.id, "<anchor>", "missing:run_generate", "anchor not found"))
+        return
+    writes = {}
+    reads = {}
+
+    def fld(pl):
+        for x in (pl or {}).get("p", []):
+            if x["k"] == "field" and x.get("adt") == CFG and x.get("name") in OVERRIDES:
+                return x["name"]
+        return None
+    for b, blk in enumerate(rg.blocks):
+        if b not in rg.reach_blocks:
+            continue
+        for i, st in enumerate(blk["stmts"]):
+            lhs = st.get("lhs") or {}
+            pj = lhs.get("p", [])
+            if pj and pj[-1]["k"] == "field" and pj[-1].get("adt") == CFG and pj[-1].get("name") in OVERRIDES:
+                writes.setdefault(pj[-1]["name"], []).append((b, i))
+            rv = st.get("rv")
+            if rv:
+                for key in ("place",):
+                    n = fld(rv.get(key))
+                    if n:
+                        reads.setdefault(n, []).append((b, i, st.get("line")))
+                for key in ("op", "a", "b"):
+                    o = rv.get(key)
+                    if isinstance(o, dict):
+                        n = fld(op_place(o))
+                        if n:
+                            reads.setdefault(n, []).append((b, i, st.get("line")))
+        t = blk["term"]
+        if t["k"] == "call":
+            pj = t["dest"].get("p", [])
+            if pj and pj[-1]["k"] == "field" and pj[-1].get("adt") == CFG and pj[-1].get("name") in OVERRIDES:
+                writes.setdefault(pj[-1]["name"], []).append((b, 10 ** 6))
+            for a in t["args"]:
+                n = fld(op_place(a))
+                if n:
+                    reads.setdefault(n, []).append((b, 10 ** 6, t["span"]["line"]))
+    for name in sorted(fields or OVERRIDES):
+        ws = writes.get(name, [])
+        n_ok = 0
+        for (rb, ri, line) in reads.get(name, []):
+            after = blocks_reachable_from(rg, rb)
+            stale = [w for w in ws if (w[0] in after and w[0] != rb) or (w[0] == rb and w[1] > ri)]
+            if stale:
+                rule.bad(V(rule.id, rg.id, "read-before-override:%s" % name, "config.%s is read (line %s) before the command-line override that may still follow: the value used is the file/default one although the flag was given" % (name, line), rg.file, line))
+            else:
+                n_ok += 1
+        if n_ok:
+            rule.ok("config.%s: %d read(s), all after its override" % (name, n_ok))
+
+
 def check_default_sources(S, rule, only=None):
     """GenerateConfig has two sources of defaults — `impl Default` (no configuration file) and `#[serde(default = "f")]` (file that omits the key).
     They must agree field by field: the Default initialiser is the call f() (or both are the same literal).  Shared by C19-D3 and C04-D3."""
@@ -193,7 +321,8 @@ def check(ctx):
             for c in g.calls:
                 if strip_generics(c.path) in ("std::mem::take", "std::mem::replace", "std::mem::swap"):
                     r1.bad(V(r1.id, fid, "mem-replace", "the document is swapped/replaced via %s" % c.path, c.file, c.line))
-    r1.require_floor(6, "read-modify-write facts")
+    check_typegen_inserted_on_all_paths(P, r1)
+    r1.require_floor(7, "read-modify-write facts")
     rules.append(r1)
 
     # ---------------------------------------------------------------- D2 (syntax level)
@@ -274,6 +403,7 @@ def check(ctx):
                 elif not opt and fld.get("ty", "").strip() != "bool" and dflt:
                     r3.bad(V(r3.id, "TypegenCommands::Generate", "flag-has-clap-default:%s" % fld["name"], "flag %s carries a clap default and cannot express absence" % fld["name"]))
     check_default_sources(S, r3)
+    check_no_early_reads(P, r3)
     rg = P.fns.get("cargo_tauri_typegen::run_generate")
     if rg is None:
         r3.bad(V(r3.id, "<anchor>", "missing:run_generate", "anchor not found"))
@@ -400,7 +530,8 @@ def check(ctx):
             r4.ok("validate has %d Err returns" % errs)
         else:
             r4.bad(V(r4.id, VALIDATE, "err-returns:%d" % errs, "validate has %d Err returns (expected >= 2)" % errs))
-    r4.require_floor(8, "validation facts")
+    check_validation_dispatch_agreement(S, r4)
+    r4.require_floor(9, "validation facts")
     rules.append(r4)
 
     return finish(
